@@ -2894,12 +2894,20 @@ class WorkflowGraph(object):
 
         top_level_folders = self.configuration.top_level_folders
 
+        # VV: The components of the template have stage indices that are relative to the stage of the $import, the
+        #     variables of a stage are stored under its absolute index: shift them to the frame of the template
+        import_stage = doc['stage']  # type: int
+        template_variables = dict(platform_variables)
+        template_variables[FlowIR.LabelStages] = {
+            (index - import_stage): stage_vars
+            for (index, stage_vars) in (platform_variables.get(FlowIR.LabelStages) or {}).items()
+            if isinstance(index, int)
+        }
+
         rep_placeholders = FlowIR.apply_replicate(
-            doc['components'], platform_variables, ignore_missing_references=True,
+            doc['components'], template_variables, ignore_missing_references=True,
             application_dependencies=self.configuration.get_application_dependencies(),
             top_level_folders=top_level_folders)
-
-        import_stage = doc['stage']  # type: int
 
         # VV: Project names of component-placeholders to import_stage
         placeholder_ids = [(comp['stage'] + import_stage, comp['name']) for comp in rep_placeholders]
